@@ -33,6 +33,10 @@ def replaceOne (tpls : Tpls) : Nat → Str → Str
 
 def replaceStr (tpls : Tpls) (s : Str) : Str := replaceOne tpls (s.length + 1) s
 
+/-- `Templates::insert`: a name already defined is refused and the templates are unchanged -/
+def tplInsert (cur : Tpls) (name text : Str) : Option Tpls :=
+  if cur.any (fun q => q.1 == name) then none else some (cur ++ [(name, text)])
+
 /-- `Templates::extend`: nothing is inserted if any name is already defined -/
 def tplExtend (cur new : Tpls) : Option Tpls :=
   if new.any (fun p => cur.any (fun q => q.1 == p.1)) then none else some (cur ++ new)
